@@ -229,6 +229,10 @@ func admFacts() map[string]any {
 		"shape_nsec3_aggressive_needs_secure":      false,
 		"shape_aggressive_flag_from_evaluator":     false,
 		"shape_validator_error_returns_error":      false,
+		"shape_rfc8020_stop_guard":                 false,
+		"shape_prefetch_admission_guard":           false,
+		"shape_prefetch_cut_needs_nxdomain":        false,
+		"shape_writemsg_cut_needs_nxdomain":        false,
 	}
 	fset := token.NewFileSet()
 	file, err := parser.ParseFile(fset, filepath.Join(repo, "middleware/resolver/resolver.go"), nil, 0)
@@ -280,5 +284,53 @@ func admFacts() map[string]any {
 		}
 	}
 	out["shape_validator_error_returns_error"] = okAll
+
+	// processAuthoritySection: the RFC 8020 stop at a minimised NXDOMAIN
+	for _, d := range file.Decls {
+		if f, ok := d.(*ast.FuncDecl); ok && f.Name.Name == "processAuthoritySection" && f.Recv != nil {
+			// the early `return result, nil` inside `if minimized { if NXDOMAIN { if hasSOA {` is guarded by …
+			var conds []string
+			ast.Inspect(f.Body, func(n ast.Node) bool {
+				if is, ok := n.(*ast.IfStmt); ok {
+					c := exprStr(fset, is.Cond)
+					if strings.Contains(c, "negative.Aggressive") {
+						conds = append(conds, c)
+					}
+				}
+				return true
+			})
+			out["shape_rfc8020_stop_guard"] = len(conds) == 1 && strings.Contains(conds[0], "secure") &&
+				strings.Contains(conds[0], "negative.Proof.Rcode == dns.RcodeNameError") &&
+				strings.Contains(conds[0], "!dnsutil.HasNSEC3OptOut(") && strings.Contains(conds[0], "negative.Proof != nil")
+		}
+	}
+	// prefetch write-back (middleware/cache/prefetch_queue.go): same admission guard as WriteMsg
+	if pf, err := parser.ParseFile(fset, filepath.Join(repo, "middleware/cache/prefetch_queue.go"), nil, 0); err == nil {
+		for _, d := range pf.Decls {
+			f, ok := d.(*ast.FuncDecl)
+			if !ok || f.Body == nil {
+				continue
+			}
+			if gs, found := guardsOfCall(fset, f, "RecordDenialProof"); found {
+				out["shape_prefetch_admission_guard"] = has(gs, "!req.Entry.scoped()") && has(gs, "!requestCD") &&
+					has(gs, "!req.RequestHadECS") && has(gs, "!hasEDNSClientSubnet(req.Request)") && has(gs, "!resp.CheckingDisabled") &&
+					has(gs, "negative.Aggressive") && has(gs, "negative.Proof != nil")
+				cgs, cfound := guardsOfCall(fset, f, "RecordNXDomainCut")
+				out["shape_prefetch_cut_needs_nxdomain"] = cfound && has(cgs, "negative.Proof.Rcode == dns.RcodeNameError") && has(cgs, "negative.Aggressive")
+			}
+		}
+	}
+	// WriteMsg itself (the differential 'adm' ops exercise it; the shape pins the cut's NXDOMAIN guard)
+	if cf, err := parser.ParseFile(fset, filepath.Join(repo, "middleware/cache/cache.go"), nil, 0); err == nil {
+		for _, d := range cf.Decls {
+			f, ok := d.(*ast.FuncDecl)
+			if !ok || f.Body == nil || f.Name.Name != "WriteMsg" {
+				continue
+			}
+			if gs, found := guardsOfCall(fset, f, "RecordNXDomainCut"); found {
+				out["shape_writemsg_cut_needs_nxdomain"] = has(gs, "negative.Proof.Rcode == dns.RcodeNameError") && has(gs, "negative.Aggressive")
+			}
+		}
+	}
 	return out
 }
